@@ -28,7 +28,7 @@ Theorem judge_camion_sound : forall rec m n M rc1 v viol rc2 was Sg viol2 rc3 v'
     (was = 1 <-> Sm = M) /\
     v' = 1 /\                                           (* the output passes the test *)
     S2 = Some (m, n, Sm) /\ was2 = 1 /\                 (* signing again changes nothing *)
-    (tu_bf m n M = true -> v = 1) /\                    (* every TU matrix is Camion-signed *)
+    ((m * n <= 42)%nat -> tu_bf m n M = true -> v = 1) /\   (* every TU matrix is Camion-signed (decided up to 42 cells) *)
     ((m * n <= 20)%nat -> regular_bf m n (support M) = true ->
        tu_bf m n Sm = true /\ (v = 1 -> tu_bf m n M = true)) /\
     (v = 0 -> forall rs cs, viol = Some (rs, cs) -> check_camion_violator m n M rs cs = true).
@@ -65,7 +65,8 @@ Proof.
   split. { apply orb_true_iff in V. destruct V as [V|V]; apply Z.eqb_eq in V; auto. }
   split; [exact Hwas|]. split; [exact Ev'|]. split; [reflexivity|]. split; [exact Hw2|].
   split.
-  { intros Htu. rewrite Htu in Etu. cbn in Etu. apply negb_false_iff in Etu. apply Z.eqb_eq in Etu. exact Etu. }
+  { intros Hsz42 Htu. apply Nat.leb_le in Hsz42. rewrite Hsz42, Htu in Etu. rewrite !andb_true_r in Etu.
+    apply negb_false_iff in Etu. apply Z.eqb_eq in Etu. exact Etu. }
   split.
   { intros Hsz Hreg.
     assert (Hle : Nat.leb (m * n) 20 = true) by (apply Nat.leb_le; exact Hsz).
